@@ -80,8 +80,15 @@ Theorem C19_region_enum_spec : forall P m n ld, m <= ld ->
   NoDup (region_enum P m n ld) /\
   forall e, In e (region_enum P m n ld) <->
     exists i j, 0 <= i < m /\ 0 <= j < n /\ P i j = true /\ e = i + j * ld.
-Proof. intros P m n ld H. split; [exact (region_enum_NoDup P m n ld H)|intro e; exact (region_enum_In P m n ld e)]. Qed.
+Proof. exact region_enum_spec. Qed.
 Print Assumptions C19_region_enum_spec.
+
+(* ... and with ld >= m the column-major order of positions is the increasing order of offsets *)
+Theorem C19_column_major_increasing : forall m ld i1 j1 i2 j2,
+  m <= ld -> 0 <= i1 < m -> 0 <= i2 < m -> 0 <= j1 -> 0 <= j2 ->
+  (i1 + j1 * ld < i2 + j2 * ld <-> j1 < j2 \/ (j1 = j2 /\ i1 < i2)).
+Proof. exact column_major_increasing. Qed.
+Print Assumptions C19_column_major_increasing.
 
 (* the arena shorthands adt_define_{rect,upper,lower,square} *)
 Theorem C19_adt : forall kind sz diag m n ld,
